@@ -38,7 +38,7 @@ import (
 	mockvdr "github.com/hyperledger/aries-framework-go/pkg/mock/vdr"
 	vdrspi "github.com/hyperledger/aries-framework-go/spi/vdr"
 
-	env "verifharness/c01env"
+	env "verifharness/c14env"
 	"verifharness/hx"
 )
 
